@@ -118,6 +118,7 @@ func init() {
 			{Pkg: txauthorPkg, Fn: "ZzC07Out251C1", Tiers: "qt", Reach: []string{"c07-end"}, Bound: "251 outputs, 1 coin"},
 			{Pkg: txauthorPkg, Fn: "ZzC07Out252C1", Tiers: "qt", Reach: []string{"c07-end", "with-change"}, Bound: "252 outputs (+change = 253: compact-size boundary), 1 coin"},
 			{Pkg: txauthorPkg, Fn: "ZzC07Out253C1", Tiers: "qt", Reach: []string{"c07-end"}, Bound: "253 outputs, 1 coin"},
+			{Pkg: walletPkg, Fn: "ZzC07WalletSources", Tiers: "qt", Reach: []string{"c07w-end", "insufficient", "several-inputs"}, Bound: "the wallet's real input sources (makeInputSource, constantInputSource) feeding txauthor.NewUnsignedTransaction: three P2WPKH coins with symbolic amounts (largest first), one output with a symbolic amount, fee rate 1000 or 10000 sat/kvB"},
 			{Pkg: txauthorPkg, Fn: "ZzC07Out2C2", Tiers: "t", Reach: []string{"c07-end", "several-inputs"}, Bound: "2 outputs with 5 script-kind rotations, 2 coins"},
 			{Pkg: txauthorPkg, Fn: "ZzC07Out1C2", Tiers: "t", Reach: []string{"c07-end"}, Bound: "1 output of 5 kinds, 2 coins"},
 			{Pkg: txauthorPkg, Fn: "ZzC07Out2C3", Tiers: "t", Reach: []string{"c07-end"}, Bound: "2 outputs, 3 coins"},
